@@ -150,6 +150,13 @@ func (tr *Tracer) HandlerEnd(t *am.Transition, emitter, handler string) {
 
 func (tr *Tracer) MachineInit(m am.Api) context.Context { return nil }
 
+// QueuedLen returns the number of MutationQueued callbacks seen.
+func (tr *Tracer) QueuedLen() int {
+	tr.mu.Lock()
+	defer tr.mu.Unlock()
+	return len(tr.Queued)
+}
+
 // Len returns the number of finished transitions.
 func (tr *Tracer) Len() int {
 	tr.mu.Lock()
